@@ -85,7 +85,7 @@ func specs() []*spec {
 			ID: "C09", Harness: "monsim", Level: "exploration",
 			Parts: []part{{Harness: "monsim", Share: 0.7, Batch: 100}, {Harness: "clustersim", Share: 0.3, Batch: 40}},
 			Batch: 100, QuickSecs: 30, ThoroughSecs: 600, PlanTimeoutS: 20,
-			RequiredProbes: []string{"reads", "alerts", "alert_once_episodes", "expiry_episodes_seen", "window_wrapped", "peerset_change", "remove_peer", "partition", "expired_on_arrival", "cadence_checked", "retries_checked", "publish_errors", "ipfs_down", "slow_daemon_reads"},
+			RequiredProbes: []string{"reads", "alerts", "alert_once_episodes", "arrival_after_checker_forgot", "expiry_episodes_seen", "window_wrapped", "peerset_change", "remove_peer", "partition", "expired_on_arrival", "cadence_checked", "retries_checked", "publish_errors", "ipfs_down", "slow_daemon_reads"},
 			Rule:           "plan = scenario (bare Store+Checker.Watch | pubsubmon Monitors over gossipsub on mocknet, 1-3 hosts) + 5-150 steps (LogMetric arrivals with validity flag and TTL 0.1-60 s incl. already-expired, trains longer than the 25-slot window, PublishMetric over gossipsub, peerset changes, RemovePeer, partitions/heals, reads), with delays chosen so that reads and checker ticks land before/at/after expiry instants; knobs: check interval 0.2-15 s, peerset known or nil, 1-6 peers, 1-3 metric names. Non-trivial = >=1 arrival and >=1 fault/irregular event fired; distinct = distinct canonical trace digest.",
 			Real:           []string{"monitor/metrics Store, Window, Checker (Watch, CheckPeers, CheckAll, alert)", "monitor/pubsubmon Monitor (LogMetric, PublishMetric, LatestMetrics, Alerts, logFromPubsub)", "api.Metric (Expired/Discard)", "go-libp2p-pubsub gossipsub with signing, libp2p basic host on mocknet"},
 			Model:          []string{"reference table (name,peer) -> arrivals; peerset function driven by the plan", "publish-cadence part (clustersim): real Cluster.pushInformerMetrics/pushPingMetrics with the real disk and numpin informers over a model IPFS, recording monitor that fails k consecutive publishes"},
@@ -165,7 +165,7 @@ func specs() []*spec {
 			Parts: []part{{Harness: "clustersim", Share: 0.6, Batch: 1}, {Harness: "crdtsim", Share: 0.4, Batch: 1}},
 			Batch: 1, QuickSecs: 50, ThoroughSecs: 600, PlanTimeoutS: 120,
 			DetSamples: 8, DetThreshold: 0.9,
-			RequiredProbes: []string{"walks", "refusals", "allowed_calls", "trust_changes", "endpoints_found", "untrusted_publisher_checked", "add_peer_calls", "concurrent_trust_changes", "trusted_update_through_untrusted_relay"},
+			RequiredProbes: []string{"walks", "refusals", "allowed_calls", "trust_changes", "endpoints_found", "untrusted_publisher_checked", "add_peer_calls", "concurrent_trust_changes", "trusted_update_through_untrusted_relay", "trust_config_saved_and_reloaded"},
 			Rule:           "part 1 (clustersim): a real Cluster with a real Raft or CRDT consensus component (trust config: Raft | CRDT explicit list | empty list | trust-all, loaded through the JSON section or through defaults + CLUSTER_CRDT_TRUSTEDPEERS; tracing on or off) is called over libp2p by real gorpc clients; every RPC endpoint found by reflection over the five service types x {self, peer1, peer2} is called in a plan-chosen order (a complete walk of the table, repeated after plan-chosen Trust/Distrust calls) and each outcome is compared with what the statement dictates (untrusted: only identity, version and the join handshake; local-only endpoints refused to every remote caller; self never refused; refused means no effect on tracker, IPFS, blocks or pinset). part 2 (crdtsim): 2-4 CRDT replicas whose pubsub routers come from ipfscluster.newPubSub; one of them, which nobody trusts, publishes pins and unpins under partitions and latency skews, in a third of the plans without signatures and naming a trusted replica as author; its updates must never show up at a replica that never trusted it. Non-trivial = >=1 call; distinct = distinct canonical trace digest.",
 			Real:           []string{"ipfscluster.Cluster RPC server, authorisation function and default RPC policy", "consensus/raft and consensus/crdt IsTrustedPeer/Trust/Distrust, crdt pubsub topic validator", "go-libp2p-gorpc client/server over libp2p basic hosts on mocknet", "go-libp2p-pubsub (signed), go-ds-crdt"},
 			Model:          []string{"tracker, IPFS connector, monitor, informer behind the target (recording)", "specification table of peer-to-peer vs local-only endpoints written from the statement (harness/clustersim/c07.go)"},
@@ -195,7 +195,7 @@ func specs() []*spec {
 			ID: "C14", Harness: "raftsim", Level: "exploration",
 			Batch: 8, QuickSecs: 45, ThoroughSecs: 600, PlanTimeoutS: 120,
 			DetSamples: 8, DetThreshold: 0.9,
-			RequiredProbes: []string{"offline_state_checked", "exports", "started_on_import", "import_over_existing_state", "rotations_checked", "peerstore_round_trips", "malformed_peerstore_lines", "state_dump_round_trips", "peerstore_without_final_newline"},
+			RequiredProbes: []string{"offline_state_checked", "exports", "started_on_import", "import_over_existing_state", "rotations_checked", "torn_snapshot_folder_backed_up", "peerstore_round_trips", "malformed_peerstore_lines", "state_dump_round_trips", "peerstore_without_final_newline"},
 			Rule:           "plan = a pinset built by 1-12 generated LogPin/LogUnpin calls on a real single-peer Raft (all pin fields except origins), graceful stop (snapshot on shutdown), OfflineState, JSON export through the real StateManager, import into another base directory that may already hold a different pinset, a peer started on the imported snapshot; then 1-5 CleanupRaft calls with backups_rotate 1-6, pre-existing backups (a contiguous run, or any set with holes and folders beyond the retention) and 0-2 further writes before each; the import target is empty, a cleanly stopped peer or what a killed peer leaves (log entries, no shutdown snapshot); then a peerstore save/load round trip (in half of the plans over a longer file saved earlier) with 1-5 peers (ip and dns addresses, several per peer, priority order) and malformed lines mixed into the file. Non-trivial = >=1 operation; distinct = distinct canonical trace digest.",
 			Real:           []string{"cmdutils StateManager (exportState/importState)", "consensus/raft SnapshotSave, OfflineState, LastStateRaw, CleanupRaft, dataBackupHelper, snapshot on shutdown", "state/dsstate Marshal/Unmarshal, api pin codecs (protobuf, JSON)", "pstoremgr SavePeerstore/LoadPeerstore/ImportPeers/PeerInfos", "hashicorp/raft + BoltDB + file snapshot store on tmpfs"},
 			Model:          []string{"directory model of raft / raft.old.N", "reference pinset (fold of the applied writes)"},
